@@ -781,6 +781,24 @@ func reindexBody(t *Term, b *Term, rest *Term) *Term {
 // for the first one that has an offset index: a hypothesis such as canonOrder (rows i_, positions p_) must be
 // matchable from a bare position term as well as from a bare row term.
 var reindexAllBound = true
+var noSiblingVariants = false // experiment: wotsSign loop[3]/assert[2] needs such a variant; kept off
+
+func mentionsAny(t *Term, bound []*Term) bool {
+	if len(t.Args) == 0 {
+		for _, b := range bound {
+			if t.Op == b.Op {
+				return true
+			}
+		}
+		return false
+	}
+	for _, a := range t.Args {
+		if mentionsAny(a, bound) {
+			return true
+		}
+	}
+	return false
+}
 
 func reindexVariants(bound []*Term, body *Term, all bool) []*Term {
 	out := []*Term{body}
@@ -795,6 +813,12 @@ func reindexVariants(bound []*Term, body *Term, all bool) []*Term {
 			}
 			if mentionsInnerBound(body, r) {
 				continue // the offset uses a variable bound by a quantifier inside the body: it cannot be moved out of its scope
+			}
+			if noSiblingVariants && mentionsAny(r, bound) {
+				// the offset depends on another variable of the same quantifier (A[32*i+q] re-indexed on q): the variant's
+				// only trigger is the cross product of every `select A x` with every term that fixes i - thousands of
+				// instances for no proof that needed them
+				continue
 			}
 			dup := false
 			for _, x := range rests {
